@@ -259,6 +259,7 @@ impl Responder {
         self.challenge_variant(rng, txid, method, algs, anonymity, cookie, new_realm, 0)
     }
 
+    /// variant: 6 well-formed plus a second NONCE with contradicting cookie bits (must be ignored);
     /// variant: 0 well-formed, 1 REALM missing, 2 NONCE missing, 3 cookie demands
     /// PASSWORD-ALGORITHMS but the attribute is absent
     #[allow(clippy::too_many_arguments)]
@@ -299,6 +300,12 @@ impl Responder {
         }
         if variant != 2 {
             extra.push((wire::T_NONCE, nonce.as_bytes().to_vec()));
+        }
+        if variant == 6 {
+            // a repeated NONCE whose cookie bits say the opposite of the first one: RFC 8489 14 -
+            // only the first occurrence of an attribute counts, the rest is ignored by the receiver
+            let dup = cookie_nonce_bits(list.is_none(), !anonymity, 0, &format!("dup{}", self.seq));
+            extra.push((wire::T_NONCE, dup.as_bytes().to_vec()));
         }
         if let Some(l) = &list {
             if variant != 3 {
@@ -351,6 +358,16 @@ impl Responder {
             key,
             fp: self.fp(),
         }))
+    }
+
+    /// 438 that authenticates under the current key but carries no NONCE: the client refuses it
+    /// (nothing to switch to), and refusing it must change nothing (seeded change C17-A7)
+    pub fn stale_no_nonce(&mut self, txid: &Id, method: u16) -> Option<Vec<u8>> {
+        let lt = self.lt.clone()?;
+        self.seq += 1;
+        let extra = vec![(wire::T_REALM, lt.realm.as_bytes().to_vec())];
+        let (integ, key) = self.good_auth(false);
+        Some(craft(&Reply { class: 3, method, txid: *txid, error_code: Some((438, "Stale Nonce".into())), extra, integ, key, fp: self.fp() }))
     }
 
     pub fn stale(&mut self, txid: &Id, method: u16, with_integrity: bool) -> Option<(Vec<u8>, String)> {
